@@ -10,6 +10,7 @@ CONSTANTS
   MaxFail = 0
   MaxQ0 = 0
   Kinds = {"P2", "SUB"}
+  Parts = {TRUE, FALSE}
   MaxCancel = 1
   MaxFault = 0
   Dev = {}
